@@ -1,7 +1,340 @@
 /-
-  C10 — property theorems (see DESIGN.md §5 C10).
+  C10 — typed Debian documents decode to exactly the fields written in them: the struct
+  schemas regenerated from the Go source convert to the schema interpreter's schemas; a
+  field value of any shape, in any of the real Debian layouts, decodes to its view; a whole
+  paragraph decodes to the record holding the view of every field of the document's table
+  at the struct field the table names.
+  Property theorems only; lemmas live in GoDebian/Lemmas/Docs*.lean, the value model in
+  GoDebian/Spec/DocsValue.lean, the field tables in GoDebian/Spec/Docs.lean, the kernel-checked
+  `schemaOK` facts in GoDebian/Tie/Docs.lean.
 -/
 import GoDebian.Model.Codec
+import GoDebian.Spec.Docs
+import GoDebian.Spec.DocsValue
+import GoDebian.Tie.Docs
+import GoDebian.Lemmas.Res
+import GoDebian.Lemmas.DocsValue
+import GoDebian.Lemmas.DocsStruct
+import GoDebian.Lemmas.CodecRecord
+import GoDebian.Lemmas.DocsRead
 
 namespace GoDebian.Props.C10
+open GoDebian GoDebian.Deb822 GoDebian.Codec GoDebian.Extracted.Schemas
+open GoDebian.Spec.Docs GoDebian.Spec.DocsValue
+open GoDebian.Lemmas.Res
+
+/-! ### Stage 1 — the regenerated schemas convert -/
+
+/-- Every struct schema regenerated from the Go source converts to an interpreter schema
+    (`converts`: `(toSchema fs).isSome`, no verdict when the fact is unavailable). -/
+theorem C10_converts_DSC : converts schema_control_DSC = true := by decide +kernel
+theorem C10_converts_Changes : converts schema_control_Changes = true := by decide +kernel
+theorem C10_converts_SourceParagraph : converts schema_control_SourceParagraph = true := by decide +kernel
+theorem C10_converts_BinaryParagraph : converts schema_control_BinaryParagraph = true := by decide +kernel
+theorem C10_converts_BinaryIndex : converts schema_control_BinaryIndex = true := by decide +kernel
+theorem C10_converts_SourceIndex : converts schema_control_SourceIndex = true := by decide +kernel
+theorem C10_converts_BestChecksums : converts schema_control_BestChecksums = true := by decide +kernel
+theorem C10_converts_DebControl : converts schema_deb_Control = true := by decide +kernel
+
+/-- what a conversion looks like, and a kind string that does not convert -/
+example :
+    toKind "slice:cust:SHA256FileHash" = some (.slice (.custom "SHA256FileHash")) ∧
+    toKind "map[string]string" = none ∧
+    (toSchema [⟨"Binaries", "Binary", "slice:str", ",", "\n\r\t ", false, false⟩]).isSome = true ∧
+    (toSchema [⟨"M", "M", "map[string]string", "", "", false, false⟩]).isSome = false :=
+  ⟨rfl, rfl, by decide +kernel, by decide +kernel⟩
+
+/-- The side conditions of the document theorem hold of every regenerated schema
+    (`docFits`): it converts, is shorter than the decoder's fuel, has no "-" key, its required
+    fields are in the table, and the strip set of every field of the table consists of
+    blank, tab, CR, LF only and has newline and blank where the shape needs them. -/
+theorem C10_fits_DSC : docFits dsc schema_control_DSC = true := by decide +kernel
+theorem C10_fits_Changes : docFits changes schema_control_Changes = true := by decide +kernel
+theorem C10_fits_SourceParagraph : docFits sourceParagraph schema_control_SourceParagraph = true := by decide +kernel
+theorem C10_fits_BinaryParagraph : docFits binaryParagraph schema_control_BinaryParagraph = true := by decide +kernel
+theorem C10_fits_BinaryIndex : docFits binaryIndex schema_control_BinaryIndex = true := by decide +kernel
+theorem C10_fits_SourceIndex : docFits sourceIndex schema_control_SourceIndex = true := by decide +kernel
+theorem C10_fits_BestChecksums : docFits bestChecksums schema_control_BestChecksums = true := by decide +kernel
+theorem C10_fits_DebControl : docFits debControl schema_deb_Control = true := by decide +kernel
+
+/-! ### Stage 2 — one field value -/
+
+/-- The statement as first written, without a hypothesis on the strip set.  `fieldOK` only
+    asks the strip set of a folded list to *contain* blank, tab, CR and LF (`foldStrip`), and
+    asks nothing of it for blank separated lists; a strip set with one more character eats
+    that character off the ends of the elements. -/
+def C10_decode_value_full : Prop :=
+  ∀ (r : Req) (f' : Field) (f : FieldDesc) (v : DocValue) (layout : Layout),
+    fieldOK r f' = true → toDesc f' = some f → shapeOf v = r.shape → wfValue v →
+    decodeValue 16 f.kind f.delim f.strip .zero (valueText v layout) = .ok (view v)
+
+/-- the witness: `Binary` of a .dsc with the strip set "\n\r\t a" and the one binary "ab",
+    which decodes to "b" -/
+def greedyField : Field := ⟨"Binaries", "Binary", "slice:str", ",", "\n\r\t a", false, false⟩
+
+theorem C10_decode_value_full_false : ¬ C10_decode_value_full := by
+  intro H
+  have h := H ⟨"Binary", "Binaries", .commaList⟩ greedyField
+    (.mk "Binaries" (Bytes.ofString "Binary") (.slice .str) (Bytes.ofString ",")
+      (Bytes.ofString "\n\r\t a") false false false)
+    (.commaList [[97, 98]]) [] (by decide +kernel) rfl rfl (by decide +kernel)
+  have h1 := congrArg Lemmas.Docs.strsOf h
+  have h2 : Lemmas.Docs.strsOf (decodeValue 16 (.slice .str) (Bytes.ofString ",")
+      (Bytes.ofString "\n\r\t a") .zero (valueText (.commaList [[97, 98]]) [])) = some [[98]] := by
+    decide +kernel
+  have h3 : Lemmas.Docs.strsOf (.ok (view (.commaList [[97, 98]]))) = some [[97, 98]] := by
+    decide +kernel
+  simp only [FieldDesc.kind, FieldDesc.delim, FieldDesc.strip] at h1
+  rw [h2, h3] at h1
+  exact absurd h1 (by decide)
+
+/-- MAIN (one field): a struct field that passes the table's check for a Debian field
+    (`fieldOK`), converted to a descriptor, whose strip set is white space only and has the
+    newline and the blank where the shape puts them (`stripFits` — true of every regenerated
+    schema, `C10_fits_*`), decodes the value text of every well-formed value of the field's
+    shape, in every layout, to exactly the value's view: scalars verbatim; numbers; versions,
+    architectures and relationship fields as their parsed forms; comma and blank separated
+    lists as their elements in order, whether on one line or folded anywhere; checksum and
+    file lists as tuples tagged with the algorithm of the field. -/
+theorem C10_decode_value (r : Req) (f' : Field) (f : FieldDesc) (v : DocValue) (layout : Layout)
+    (hok : fieldOK r f' = true) (hd : toDesc f' = some f)
+    (hstrip : stripFits r.shape f.strip = true) (hshape : shapeOf v = r.shape)
+    (hwf : wfValue v) :
+    decodeValue 16 f.kind f.delim f.strip .zero (valueText v layout) = .ok (view v) :=
+  Lemmas.Docs.decode_value r f' f v layout hok hd hstrip hshape hwf
+
+/-- the same with the layout given by one number (its binary digits) -/
+theorem C10_decode_value_nat (r : Req) (f' : Field) (f : FieldDesc) (v : DocValue) (layout : Nat)
+    (hok : fieldOK r f' = true) (hd : toDesc f' = some f)
+    (hstrip : stripFits r.shape f.strip = true) (hshape : shapeOf v = r.shape)
+    (hwf : wfValue v) :
+    decodeValue 16 f.kind f.delim f.strip .zero (valueText v (layoutOfNat layout)) = .ok (view v) :=
+  C10_decode_value r f' f v (layoutOfNat layout) hok hd hstrip hshape hwf
+
+/-- `Binary` of a .dsc: three binaries, on one line, folded after every comma with the
+    field's own line empty, folded after the first only. -/
+example :
+    let B := Bytes.ofString
+    let r : Req := ⟨"Binary", "Binaries", .commaList⟩
+    let f' : Field := ⟨"Binaries", "Binary", "slice:str", ",", "\n\r\t ", false, false⟩
+    let v : DocValue := .commaList [B "libfoo1", B "libfoo-dev", B "foo doc"]
+    fieldOK r f' = true ∧ (toDesc f').isSome = true ∧
+    stripFits r.shape (B f'.strip) = true ∧ shapeOf v = r.shape ∧ wfValue v ∧
+    valueText v [] = B "libfoo1, libfoo-dev, foo doc" ∧
+    valueText v [1, 1, 1] = B "libfoo1,\nlibfoo-dev,\nfoo doc\n" ∧
+    valueText v [0, 1, 0] = B "libfoo1,\nlibfoo-dev, foo doc\n" ∧
+    valueText v (layoutOfNat 5) = B "libfoo1, libfoo-dev,\nfoo doc\n" := by
+  decide +kernel
+
+/-- `Binary` of a .changes (blank separated, the blank as explicit delimiter) and
+    `Architecture` (no delimiter, elements parsed): one line, or folded. -/
+example :
+    let B := Bytes.ofString
+    let r : Req := ⟨"Binary", "Binaries", .spaceList⟩
+    let f' : Field := ⟨"Binaries", "Binary", "slice:str", " ", "", false, false⟩
+    let v : DocValue := .spaceList [B "a", B "b", B "c"]
+    let r2 : Req := ⟨"Architecture", "Architectures", .archList⟩
+    let f2 : Field := ⟨"Architectures", "Architecture", "slice:cust:Arch", "", "", false, false⟩
+    let v2 : DocValue := .archList [(B "amd64", ⟨Dep.sGnu, Dep.sLinux, B "amd64"⟩),
+      (B "linux-any", ⟨Dep.sAny, Dep.sLinux, Dep.sAny⟩)]
+    fieldOK r f' = true ∧ (toDesc f').isSome = true ∧ stripFits r.shape (B f'.strip) = true ∧
+    shapeOf v = r.shape ∧ wfValue v ∧
+    valueText v [] = B "a b c" ∧ valueText v [0, 0, 1] = B "a b\nc\n" ∧
+    fieldOK r2 f2 = true ∧ (toDesc f2).isSome = true ∧ stripFits r2.shape (B f2.strip) = true ∧
+    shapeOf v2 = r2.shape ∧ wfValue v2 ∧
+    valueText v2 [0, 1] = B "amd64\nlinux-any\n" := by
+  decide +kernel
+
+/-- `Checksums-Sha256` (one entry per continuation line, the field's own line empty — or
+    the first entry on it, as the encoder writes) and the `Files` field of a .changes. -/
+example :
+    let B := Bytes.ofString
+    let r : Req := ⟨"Checksums-Sha256", "ChecksumsSha256", .hashList "sha256"⟩
+    let f' : Field := ⟨"ChecksumsSha256", "Checksums-Sha256", "slice:cust:SHA256FileHash", "\n",
+      "\n\r\t ", false, false⟩
+    let v : DocValue := .hashList "sha256" [⟨B "ab12", 1204, B "x_1.dsc"⟩, ⟨B "cd34", 3, B "x_1.tar.gz"⟩]
+    let r2 : Req := ⟨"Files", "Files", .changesFiles⟩
+    let f2 : Field := ⟨"Files", "Files", "slice:cust:FileListChangesFileHash", "\n", "\n\r\t ",
+      false, false⟩
+    let v2 : DocValue := .changesFiles [⟨B "d41d", 12, B "utils", B "optional", B "x_1_amd64.deb"⟩]
+    fieldOK r f' = true ∧ (toDesc f').isSome = true ∧ stripFits r.shape (B f'.strip) = true ∧
+    shapeOf v = r.shape ∧ wfValue v ∧
+    valueText v [1] = B "ab12 1204 x_1.dsc\ncd34 3 x_1.tar.gz\n" ∧
+    valueText v [0] = B "ab12 1204 x_1.dsc\ncd34 3 x_1.tar.gz\n" ∧
+    fieldOK r2 f2 = true ∧ (toDesc f2).isSome = true ∧ stripFits r2.shape (B f2.strip) = true ∧
+    shapeOf v2 = r2.shape ∧ wfValue v2 ∧
+    valueText v2 [1] = B "d41d 12 utils optional x_1_amd64.deb\n" ∧
+    valueText v2 [] = B "d41d 12 utils optional x_1_amd64.deb" := by
+  decide +kernel
+
+/-- a version, a number, a flag and a relationship field folded after the comma -/
+example :
+    let B := Bytes.ofString
+    let d : Spec.Dependency.SDep :=
+      [[⟨false, B "debhelper", none, some (Dep.opGE, B "9"), false, [], []⟩],
+       [⟨false, B "libc6-dev", none, none, false, [B "amd64"], []⟩]]
+    fieldOK ⟨"Version", "Version", .version⟩ ⟨"Version", "Version", "cust:Version", "", "", false, false⟩ = true ∧
+    wfValue (.version (B "1:2.30-10") ⟨1, B "2.30", B "10"⟩) ∧
+    wfValue (.int (-5)) ∧ valueText (.int (-5)) [] = B "-5" ∧
+    valueText (.bool true) [] = B "yes" ∧
+    fieldOK ⟨"Build-Depends", "BuildDepends", .dep⟩
+      ⟨"BuildDepends", "Build-Depends", "cust:Dependency", "", "", false, false⟩ = true ∧
+    wfValue (.dep d) ∧
+    valueText (.dep d) [0, 0, 1, 0, 1, 0, 0, 6, 0, 1, 0, 0, 6] =
+      B "debhelper (>= 9),\nlibc6-dev [amd64]\n" := by
+  decide +kernel
+
+/-! ### Stage 3 — the whole paragraph -/
+
+/-- MAIN (document): let `spec` be the field table of a document kind, `fs` a struct schema
+    that satisfies it (`schemaOK`, `Tie.Docs.schema_*`) and the side conditions `docFits`
+    (`C10_fits_*`), `s` its conversion; let `m` give, for the Debian fields that are present, a
+    well-formed value of the table's shape and a layout (`wfModel`), every required struct
+    field being present; let the paragraph `p` carry the model (`Carries`: for every key a
+    struct field claims, `p` has the model's value text when the table lists the key and the
+    model has the field, and no value otherwise — in particular no key "Paragraph", the key
+    of the embedded `Paragraph`, and no key of a struct field outside the table, such as
+    "Filename"; any other key is allowed).  Then decoding succeeds, and the record holds, field
+    by field (`fieldVal`): the paragraph itself in the embedded `Paragraph`, the view of the
+    model's value in every struct field of the table that is present, the zero value in every
+    other one. -/
+theorem C10_decode_document (spec : List Req) (fs : List Field) (s : Schema) (m : DocModel)
+    (p : Paragraph) (hok : schemaOK spec (some fs) = true) (hfits : docFits spec (some fs) = true)
+    (hs : toSchema fs = some s) (hm : wfModel spec m)
+    (hreq : ∀ f ∈ fs, f.required = true → (m f.key).isSome = true) (hp : Carries spec fs m p) :
+    decodeStruct p s [] = .ok (fs.map (fieldVal spec m p)) :=
+  Lemmas.Docs.decode_document hok hfits hs hm hreq hp
+
+/-- … read by the rows of the table: for every Debian field of the table there is a struct
+    field with the Go name the table demands, and the record holds there the view of the
+    field's value — or the zero value when the document does not have the field. -/
+theorem C10_document_fields (spec : List Req) (fs : List Field) (s : Schema) (m : DocModel)
+    (p : Paragraph) (hok : schemaOK spec (some fs) = true) (hfits : docFits spec (some fs) = true)
+    (hs : toSchema fs = some s) (hm : wfModel spec m)
+    (hreq : ∀ f ∈ fs, f.required = true → (m f.key).isSome = true) (hp : Carries spec fs m p) :
+    ∃ rec, decodeStruct p s [] = .ok rec ∧ rec.length = fs.length ∧
+      ∀ r ∈ spec, ∃ (i : Nat) (g : Field), fs[i]? = some g ∧ g.name = r.go ∧ g.key = r.deb ∧
+        rec[i]? = some (match m r.deb with | some (v, _) => view v | none => .zero) :=
+  ⟨_, C10_decode_document spec fs s m p hok hfits hs hm hreq hp, by simp,
+    fun _ hr => Lemmas.Docs.view_at hok hr⟩
+
+/-- A required struct field (deb.Control: Package, Version, Architecture) that the paragraph
+    does not have makes decoding fail (C09's `C09_required_missing` on the converted schema). -/
+theorem C10_required_missing (fs : List Field) (s : Schema) (p : Paragraph)
+    (hs : toSchema fs = some s) (g : Field) (hg : g ∈ fs) (hr : g.required = true)
+    (ha : g.anonymous = false) (hk : Bytes.ofString g.key ≠ [45])
+    (hmiss : lookup (Bytes.ofString g.key) p.values = none) :
+    ∃ e, decodeStruct p s [] = .error e := by
+  obtain ⟨f, hf, hd⟩ := Lemmas.Docs.toSchema_mem hs hg
+  obtain ⟨k, _, hfe⟩ := Lemmas.Docs.toDesc_some hd
+  exact Lemmas.Codec.decodeFields_required_missing p f (by rw [hfe]; exact hr)
+    (by rw [hfe]; exact hk) (by rw [hfe]; exact ha) (by rw [hfe]; exact hmiss) s _ [] hf
+
+/-- A .dsc: `Source`, a folded `Binary`, `Architecture`, `Version`, a `Build-Depends` folded
+    after the comma, `Files` one per continuation line; `Format` and the other fields absent;
+    a field the struct does not know (`X-Extra`) in the paragraph. -/
+def dscModel : DocModel := fun k =>
+  let B := Bytes.ofString
+  match k with
+  | "Source" => some (.scalar (B "hello") [], [])
+  | "Binary" => some (.commaList [B "hello", B "hello-dev"], [1, 1])
+  | "Architecture" => some (.archList [(B "any", ⟨Dep.sAny, Dep.sAny, Dep.sAny⟩)], [])
+  | "Version" => some (.version (B "1:2.10-1") ⟨1, B "2.10", B "1"⟩, [])
+  | "Build-Depends" => some (.dep [[⟨false, B "debhelper", none, some (Dep.opGE, B "9"), false, [], []⟩],
+      [⟨false, B "gettext", none, none, false, [], []⟩]], [0, 0, 1, 0, 1, 0, 0, 6, 0, 6])
+  | "Files" => some (.hashList "md5" [⟨B "d41d8cd9", 1204, B "hello_2.10-1.dsc"⟩,
+      ⟨B "900150983c", 725946, B "hello_2.10.orig.tar.gz"⟩], [1])
+  | _ => none
+
+def dscParagraph : Paragraph :=
+  let B := Bytes.ofString
+  ⟨[B "Source", B "Binary", B "Architecture", B "Version", B "Build-Depends", B "X-Extra", B "Files"],
+   [(B "Source", B "hello"), (B "Binary", B "hello,\nhello-dev\n"), (B "Architecture", B "any"),
+    (B "Version", B "1:2.10-1"), (B "Build-Depends", B "debhelper (>= 9),\ngettext\n"),
+    (B "X-Extra", B "kept in the embedded Paragraph"),
+    (B "Files", B "d41d8cd9 1204 hello_2.10-1.dsc\n900150983c 725946 hello_2.10.orig.tar.gz\n")]⟩
+
+/-- the model is well-formed, the paragraph carries it, nothing required is missing -/
+theorem dsc_sample_ok : Lemmas.Docs.wfModelB dsc dscModel = true ∧
+    (schema_control_DSC = none ∨
+      (Carries dsc (schema_control_DSC.getD []) dscModel dscParagraph ∧
+       ∀ f ∈ schema_control_DSC.getD [], f.required = true → (dscModel f.key).isSome = true)) := by
+  decide +kernel
+
+/-- … so the .dsc above decodes, with the Go struct definition as regenerated: -/
+example (fs : List Field) (s : Schema) (h : schema_control_DSC = some fs)
+    (hs : toSchema fs = some s) :
+    decodeStruct dscParagraph s [] = .ok (fs.map (fieldVal dsc dscModel dscParagraph)) := by
+  obtain ⟨hm, hc⟩ := dsc_sample_ok
+  rw [h] at hc
+  rcases hc with hc | ⟨hp, hreq⟩
+  · cases hc
+  · exact C10_decode_document dsc fs s dscModel dscParagraph (h ▸ Tie.Docs.schema_DSC)
+      (h ▸ C10_fits_DSC) hs (Lemmas.Docs.wfModel_of_B hm) hreq hp
+
+/-- a .deb control file without `Version`: decoding fails -/
+example :
+    let B := Bytes.ofString
+    let p : Paragraph := ⟨[B "Package", B "Architecture"], [(B "Package", B "hello"), (B "Architecture", B "amd64")]⟩
+    ∀ fs s, schema_deb_Control = some fs → toSchema fs = some s →
+      ⟨"Version", "Version", "cust:Version", "", "", true, false⟩ ∈ fs →
+      ∃ e, decodeStruct p s [] = .error e :=
+  fun fs s _ hs hmem => C10_required_missing fs s _ hs _ hmem rfl rfl (by decide +kernel) (by decide +kernel)
+
+/-! ### Stage 4 — from the text: composition with the reader (C07) -/
+
+/-- `Unmarshal` of the text: a well-formed one-paragraph deb822 document (`Spec.Deb822.wfPara`),
+    rendered in any physical layout C07 covers (LF / CRLF, comments, padding after the colon,
+    trailing blanks, blank or tab continuation markers, empty lines around, with or without
+    the final newline), whose paragraph (`expectedPara`: every field's value as the reader
+    returns it) carries the model, unmarshals to the record of the model's views. -/
+theorem C10_unmarshal_rendered (spec : List Req) (fs : List Field) (s : Schema) (m : DocModel)
+    (para : Spec.Deb822.Para) (cs : Spec.Deb822.Choices)
+    (hok : schemaOK spec (some fs) = true) (hfits : docFits spec (some fs) = true)
+    (hs : toSchema fs = some s) (hm : wfModel spec m)
+    (hreq : ∀ f ∈ fs, f.required = true → (m f.key).isSome = true)
+    (hwf : Spec.Deb822.wfPara para = true)
+    (hp : Carries spec fs m (Spec.Deb822.expectedPara para)) :
+    unmarshal s (Spec.Deb822.render [para] cs) =
+      .ok (fs.map (fieldVal spec m (Spec.Deb822.expectedPara para))) := by
+  rw [Lemmas.Docs.unmarshal_render s para cs hwf]
+  exact C10_decode_document spec fs s m _ hok hfits hs hm hreq hp
+
+/-- The .dsc of Stage 3 as a deb822 document: its fields are the model's values in the
+    model's layouts (`fieldOf`; the relationship field, folded after the comma, is given by
+    its two lines), plus the field the struct does not know. -/
+def dscFields : Spec.Deb822.Para :=
+  let B := Bytes.ofString
+  let of (k : String) : List Spec.Deb822.Field :=
+    match dscModel k with
+    | some (v, l) => [fieldOf (B k) v l]
+    | none => []
+  of "Source" ++ of "Binary" ++ of "Architecture" ++ of "Version" ++
+    [⟨B "Build-Depends", B "debhelper (>= 9),", [B "gettext"]⟩,
+     ⟨B "X-Extra", B "kept in the embedded Paragraph", []⟩] ++ of "Files"
+
+/-- it is well-formed, denotes the paragraph of Stage 3, and this is its plainest layout -/
+theorem dsc_fields_ok :
+    Spec.Deb822.wfPara dscFields = true ∧ Spec.Deb822.expectedPara dscFields = dscParagraph ∧
+    Spec.Deb822.render [dscFields] [] = Bytes.ofString
+      ("Source: hello\nBinary:\n hello,\n hello-dev\nArchitecture: any\nVersion: 1:2.10-1\n" ++
+       "Build-Depends: debhelper (>= 9),\n gettext\nX-Extra: kept in the embedded Paragraph\n" ++
+       "Files:\n d41d8cd9 1204 hello_2.10-1.dsc\n 900150983c 725946 hello_2.10.orig.tar.gz\n") := by
+  decide +kernel
+
+/-- … so that text, and every other layout of it, unmarshals into the DSC struct as
+    regenerated from the Go source -/
+example (fs : List Field) (s : Schema) (h : schema_control_DSC = some fs)
+    (hs : toSchema fs = some s) (cs : Spec.Deb822.Choices) :
+    unmarshal s (Spec.Deb822.render [dscFields] cs) =
+      .ok (fs.map (fieldVal dsc dscModel dscParagraph)) := by
+  obtain ⟨hm, hc⟩ := dsc_sample_ok
+  obtain ⟨hwf, hpara, _⟩ := dsc_fields_ok
+  rw [h] at hc
+  rcases hc with hc | ⟨hp, hreq⟩
+  · cases hc
+  · rw [← hpara] at hp ⊢
+    exact C10_unmarshal_rendered dsc fs s dscModel dscFields cs (h ▸ Tie.Docs.schema_DSC)
+      (h ▸ C10_fits_DSC) hs (Lemmas.Docs.wfModel_of_B hm) hreq hwf hp
+
 end GoDebian.Props.C10
